@@ -119,10 +119,16 @@ def regenerate(prop, ext):
     os.makedirs(gdir, exist_ok=True)
     # modules of OTHER properties that this one imports: only make sure they exist (a fresh tree); they are
     # regenerated and judged by their own property's check
-    for name in gen_deps(prop):
-        dst = os.path.join(gdir, name + ".lean")
-        if not os.path.exists(dst):
-            run([ext, name, "-repo", REPO, "-out", dst], cwd=HARN, env=GOENV)
+    def ensure_deps():
+        missing = []
+        for name in gen_deps(prop):
+            dst = os.path.join(gdir, name + ".lean")
+            if not os.path.exists(dst):
+                rc_, o_, _ = run([ext, name, "-repo", REPO, "-out", dst], cwd=HARN, env=GOENV)
+                if not os.path.exists(dst):
+                    missing.append(name)
+        return missing
+    ensure_deps()
     for name in prop.get("gen", []):
         tmp = os.path.join(ROOT, ".work", "gen_" + name + ".lean")
         if os.path.exists(tmp):
@@ -143,6 +149,10 @@ def regenerate(prop, ext):
             with open(dst, "w") as f:
                 f.write(new)
         mods.append("TongoGen." + name)
+    # some translators read other regenerated modules (AbiOpcodes reads TlbTypes): second pass for what is still missing
+    for _ in range(2):
+        if not ensure_deps():
+            break
     return mods, None
 
 
@@ -344,7 +354,7 @@ def compare(prop, lines, vh, seedinfo):
     go_out = par_exec(go_cmd, lines, env=GOENV, limit_mem=True, jobs=prop.get("go_jobs", NCPU))
     midx = [k for k, l in enumerate(lines) if not l.startswith("go.")]
     mlines = [lines[k] for k in midx]
-    m_out = par_exec(model_cmd, mlines)
+    m_out = par_exec(model_cmd, mlines, limit_mem=True)   # the model driver runs under the same address-space limit
     model = dict(zip(midx, m_out))
     fails = []
     stats = dict(go_only=len(lines) - len(midx), compared=len(midx), go_panic=0, go_err=0, go_ok=0)
